@@ -39,6 +39,8 @@ var c11Scripts = []struct {
 	{"finite", `for (var i = 0; i < 5; i++) { _.props.tick(); } return {"done": true};`, false},
 	{"emit-then-loop", `_.out({"early": 1}); for (;;) { _.props.tick(); }`, true},
 	// the loop runs when the interpreter reads the returned object, after the program has returned
+	// the loop runs when somebody asks the thrown value for its text
+	{"throw-looping-tostring", `_.props.tick(); throw {toString: function() { for (;;) { _.props.tick(); } }};`, true},
 	{"getter-loop", `_.props.tick(); return {get a() { for (;;) { _.props.tick(); } }};`, true},
 	// executions that end by an ordinary failure must not leave anything behind either
 	{"throws", `_.props.tick(); throw new Error("boom");`, false},
